@@ -15,7 +15,7 @@ type lockModel struct {
 	H        *types.Named
 	st       *types.Struct
 	mtxF     int
-	fns      []*ssa.Function            // methods of H and closures nested in them
+	fns      []*ssa.Function             // methods of H and closures nested in them
 	recvOf   map[*ssa.Function]ssa.Value // the value denoting the receiver inside fn
 	ctorOf   map[*ssa.Function]bool      // non-method functions that build an H
 	acquire  map[*ssa.Function]bool      // wrapper: returns with the lock held
